@@ -2,6 +2,8 @@
 package c15
 
 import (
+	"unicode/utf8"
+
 	"github.com/hashicorp/hcl/v2"
 	"github.com/hashicorp/hcl/v2/hclsyntax"
 	"github.com/hashicorp/hcl/v2/hclwrite"
@@ -21,7 +23,10 @@ func rangeOK(r *hcl.Range, n int) bool {
 }
 
 // checkDiags asserts that every diagnostic is well-formed and lies inside the input.
-func checkDiags(diags hcl.Diagnostics, n int, what string) {
+func checkDiags(diags hcl.Diagnostics, n int, what string) { checkDiagsK(diags, n, what, "", false) }
+
+// checkDiagsK is checkDiags with a known-finding escape for the two range assertions.
+func checkDiagsK(diags hcl.Diagnostics, n int, what string, kf string, sig bool) {
 	for _, d := range diags {
 		vf.Assert(d != nil, what+":diag-non-nil")
 		if d == nil {
@@ -29,8 +34,8 @@ func checkDiags(diags hcl.Diagnostics, n int, what string) {
 		}
 		vf.Assert(d.Severity == hcl.DiagError || d.Severity == hcl.DiagWarning, what+":diag-severity")
 		vf.Assert(d.Summary != "", what+":diag-summary")
-		vf.Assert(rangeOK(d.Subject, n), what+":diag-subject-in-bounds")
-		vf.Assert(rangeOK(d.Context, n), what+":diag-context-in-bounds")
+		vf.AssertKnown(rangeOK(d.Subject, n), what+":diag-subject-in-bounds", kf, sig)
+		vf.AssertKnown(rangeOK(d.Context, n), what+":diag-context-in-bounds", kf, sig)
 	}
 }
 
@@ -68,6 +73,8 @@ var schema = &hcl.BodySchema{
 }
 
 // useBody applies a schema and evaluates every attribute in several scopes.
+var badUTF8 bool // the current source is not valid UTF-8 (signature of a known finding for JSON template strings)
+
 func useBody(body hcl.Body, n int, what string, evalOK bool) {
 	if body == nil {
 		return
@@ -88,7 +95,7 @@ func useBody(body hcl.Body, n int, what string, evalOK bool) {
 	for _, attr := range attrs {
 		for _, ctx := range scopes() {
 			_, vdiags := attr.Expr.Value(ctx)
-			checkDiags(vdiags, n, what+":eval")
+			checkDiagsK(vdiags, n, what+":eval", "C15-json-template-ranges-invalid-utf8", what == "json" && badUTF8)
 		}
 		_ = attr.Expr.Variables()
 	}
@@ -147,6 +154,7 @@ func nativeTraversal(src []byte) {
 
 func jsonFile(src []byte) {
 	n := len(src)
+	badUTF8 = !utf8.Valid(src)
 	f, diags := hcljson.Parse(src, "x.json")
 	vf.Assert(f != nil && f.Body != nil, "json.Parse:non-nil")
 	checkDiags(diags, n, "json.Parse")
@@ -160,7 +168,7 @@ func jsonFile(src []byte) {
 	if e != nil && !ediags.HasErrors() {
 		for _, ctx := range scopes() {
 			_, vdiags := e.Value(ctx)
-			checkDiags(vdiags, n, "jsonexpr:eval")
+			checkDiagsK(vdiags, n, "jsonexpr:eval", "C15-json-template-ranges-invalid-utf8", badUTF8)
 		}
 		_ = e.Variables()
 	}
